@@ -42,7 +42,7 @@ using std::string;
 // Nesting depth of expand_manifest() calls, and its limit; see get_identifier().
 static int manifest_expansion_depth = 0;
 static const int max_manifest_expansion_depth = 1000;
-static const int max_manifest_expansions_per_invocation = 20000;
+static const int max_manifest_expansions_per_invocation = 5000;
 
 // Set while skip_false_if_block() evaluates the condition of an #elif: the
 // handler then reports a false condition through elif_condition_was_true
